@@ -149,7 +149,12 @@ impl Lzma2Writer {
     /// Finish the chunk started by `begin_lzma_chunk`. Returns false (and
     /// emits nothing sensible) if the chunk is empty or exceeds the field widths.
     pub fn end_lzma_chunk(&mut self, reset: u8, trace_start: usize) -> bool {
-        let unpacked = self.enc.model.out.len() - self.chunk_start_out;
+        self.end_lzma_chunk_extra(reset, trace_start, 0)
+    }
+    /// As `end_lzma_chunk`, declaring `extra` more uncompressed bytes than the
+    /// model produced (used when the chunk ends in an illegal symbol).
+    pub fn end_lzma_chunk_extra(&mut self, reset: u8, trace_start: usize, extra: usize) -> bool {
+        let unpacked = self.enc.model.out.len() - self.chunk_start_out + extra;
         let payload = self.enc.finish_segment();
         if unpacked == 0 || unpacked > (1 << 21) || payload.len() > (1 << 16) {
             return false;
